@@ -365,7 +365,7 @@ func (h *Hist) liveProjection() Dump {
 		for i, st := range cs.Candidates().GetStakes(c.PubKey) {
 			d[fmt.Sprintf("st %d %s %d", c.ID, hexs(st.Owner[:]), st.Coin)] = fmt.Sprintf("%d %s %s", i, st.Value, st.BipValue)
 		}
-		for i, u := range liveUpdates(c) {
+		for i, u := range liveUpdatesSafe(c) {
 			d[fmt.Sprintf("up %d %d", c.ID, i)] = u
 		}
 		h.PKs[c.PubKey] = true
@@ -408,7 +408,7 @@ func (h *Hist) liveProjection() Dump {
 			d[k] = v
 		}
 	}
-	if sw, ok := cs.Swap().(*swap.SwapV2); ok {
+	if sw, ok := cs.Swap().(*swap.SwapV2); ok && !LightProjection {
 		for _, lo := range liveOrders(sw) {
 			k := fmt.Sprintf("o %d", lo.id)
 			if lo.gone {
@@ -1083,6 +1083,18 @@ func bigAt(v reflect.Value) *big.Int {
 }
 
 // liveUpdates renders the pending stake updates of a candidate in list order ("owner coin value bip").
+// LightProjection: the live projection skips everything it reads by reflection from unexported, lock-protected fields
+// (order lists, pending updates). Set for histories that run next to concurrent reader goroutines (C25): the harness
+// itself must not race with them.
+var LightProjection bool
+
+func liveUpdatesSafe(c *candidates.Candidate) []string {
+	if LightProjection {
+		return nil
+	}
+	return liveUpdates(c)
+}
+
 func liveUpdates(c *candidates.Candidate) []string {
 	var out []string
 	rv := reflect.ValueOf(c).Elem().FieldByName("updates")
